@@ -14,8 +14,16 @@
  *                                      so that a failure of a later request which depends on it keeps it when the history is shrunk.)
  *   setpen <pen> | chpen <pen>         <pen> = `-` or a comma separated list in attribute order, e.g.
  *                                      fg=200#0a0b0c,bg=-1,b=1,u=2,i=0,rv=1,strike=0,af=3,blink=1,sizepos=2
+ *   suspend                            tickit_term_pause(tt) then tickit_term_resume(tt): the program is stopped and continued.
+ *                                      (One operation, so that no request ever falls between the two halves: the documented
+ *                                      protocol allows nothing but resume after pause.)
+ *   print <word>                       tickit_term_printf(tt, "%s", <word>): text is drawn between pen requests (it is formatted in
+ *                                      the terminal's scratch buffer, which the xterm driver's chpen uses for its SGR string too)
  *
  * Observations:  x: `b=<hex of the bytes written> pen=<cached pen>`      g: `n=<chpen calls> d=<delta> f=<final> pen=<cached pen>`
+ *   suspend      x: `p=<hex of the bytes written by pause> b=<hex of the bytes written by resume> pen=<cached pen>`
+ *   print        x: `b=<hex of the bytes written> pen=<cached pen>`   g: `t=<hex of the text handed to the driver's print> pen=`
+ *                g: `pause=<driver pause calls> resume=<driver resume calls> order=<p|r|c per driver call> n=<chpen calls> d= f= pen=`
  */
 #define HCOMMON_MAIN
 #include "hcommon.h"
@@ -112,10 +120,18 @@ struct GridDriver {
   TickitTermDriver driver;
   int colors;
   int ncalls;
+  int npause, nresume;
+  char order[16]; int norder;
   char delta[512], final[512];
+  unsigned char text[256]; size_t ntext;
 };
 
-static bool gd_true3(TickitTermDriver *d, const char *s, size_t n) { (void)d; (void)s; (void)n; return true; }
+static bool gd_print(TickitTermDriver *d, const char *s, size_t n)
+{
+  struct GridDriver *gd = (struct GridDriver *)d;
+  for(size_t i = 0; i < n && gd->ntext < sizeof gd->text; i++) gd->text[gd->ntext++] = (unsigned char)s[i];
+  return true;
+}
 static bool gd_goto(TickitTermDriver *d, int l, int c) { (void)d; (void)l; (void)c; return true; }
 static bool gd_scroll(TickitTermDriver *d, const TickitRect *r, int a, int b) { (void)d; (void)r; (void)a; (void)b; return false; }
 static bool gd_erasech(TickitTermDriver *d, int n, TickitMaybeBool m) { (void)d; (void)n; (void)m; return true; }
@@ -124,6 +140,7 @@ static bool gd_chpen(TickitTermDriver *d, const TickitPen *delta, const TickitPe
 {
   struct GridDriver *gd = (struct GridDriver *)d;
   gd->ncalls++;
+  if(gd->norder < 15) gd->order[gd->norder++] = 'c';
   fmt_pen(gd->delta, sizeof gd->delta, delta);
   fmt_pen(gd->final, sizeof gd->final, final);
   return true;
@@ -137,10 +154,22 @@ static bool gd_getctl(TickitTermDriver *d, TickitTermCtl ctl, int *value)
 static bool gd_setctl_int(TickitTermDriver *d, TickitTermCtl ctl, int v) { (void)d; (void)ctl; (void)v; return false; }
 static bool gd_setctl_str(TickitTermDriver *d, TickitTermCtl ctl, const char *v) { (void)d; (void)ctl; (void)v; return false; }
 static void gd_destroy(TickitTermDriver *d) { free(d); }
+static void gd_pause(TickitTermDriver *d)
+{
+  struct GridDriver *gd = (struct GridDriver *)d;
+  gd->npause++;
+  if(gd->norder < 15) gd->order[gd->norder++] = 'p';
+}
+static void gd_resume(TickitTermDriver *d)
+{
+  struct GridDriver *gd = (struct GridDriver *)d;
+  gd->nresume++;
+  if(gd->norder < 15) gd->order[gd->norder++] = 'r';
+}
 
 static TickitTermDriverVTable gd_vtable = {
-  .destroy = gd_destroy,
-  .print = gd_true3, .goto_abs = gd_goto, .move_rel = gd_goto, .scrollrect = gd_scroll, .erasech = gd_erasech,
+  .destroy = gd_destroy, .pause = gd_pause, .resume = gd_resume,
+  .print = gd_print, .goto_abs = gd_goto, .move_rel = gd_goto, .scrollrect = gd_scroll, .erasech = gd_erasech,
   .clear = gd_clear, .chpen = gd_chpen, .getctl_int = gd_getctl, .setctl_int = gd_setctl_int, .setctl_str = gd_setctl_str,
 };
 
@@ -172,6 +201,22 @@ static void obs_cached(void)
 }
 
 static void do_request(int set, const char *pentext);
+
+/* the program is stopped and continued */
+static void do_suspend(void)
+{
+  if(mode == 'g') {
+    gd->ncalls = gd->npause = gd->nresume = gd->norder = 0;
+    memset(gd->order, 0, sizeof gd->order);
+    strcpy(gd->delta, "?"); strcpy(gd->final, "?");
+  }
+  tickit_term_pause(tt);
+  if(mode == 'x') { obs("p="); obs_hex(outb, outn); outn = 0; obs(" "); }
+  tickit_term_resume(tt);
+  if(mode == 'x') obs_out();
+  else            obs("pause=%d resume=%d order=%s n=%d d=%s f=%s", gd->npause, gd->nresume, gd->norder ? gd->order : "-", gd->ncalls, gd->delta, gd->final);
+  obs_cached();
+}
 
 static void op_new(int argc, char **argv)
 {
@@ -228,6 +273,15 @@ static void engine_op(int argc, char **argv)
     size_t n = sizeof xterm256 / sizeof xterm256[0];
     obs("%zu", n);
     for(size_t i = 0; i < n; i++) obs(" %u/%u", xterm256[i].as16, xterm256[i].as8);
+    return;
+  }
+  if((mode == 'x' || mode == 'g') && argc == 1 && strcmp(argv[0], "suspend") == 0) { do_suspend(); return; }
+  if((mode == 'x' || mode == 'g') && argc == 2 && strcmp(argv[0], "print") == 0) {
+    if(mode == 'g') gd->ntext = 0;
+    tickit_term_printf(tt, "%s", argv[1]);
+    if(mode == 'x') obs_out();
+    else { obs("t="); obs_hex(gd->text, gd->ntext); }
+    obs_cached();
     return;
   }
   if((mode != 'x' && mode != 'g') || argc != 2) { obs("bad-op"); return; }
